@@ -398,7 +398,7 @@ impl PortAssociation {
     }
 
     fn len() -> usize {
-        16
+        17
     }
 
     fn bdf(&self) -> u16 {
